@@ -9,6 +9,8 @@ open RunLimit Drv
   through the scheduler layer (tasks made ready are appended to the ready queue);
   answer `ok` or `disabled`.  `begin`/`deliver` given explicitly also leave the
   ready queue (first occurrence).
+* `nstart pi pr i r` — run `pr` of instance `pi`, executing a step, starts run `r` of
+  instance `i` (`Sched.nstart`): `ok`, or `disabled` (also when `(pi, pr)` is not inside its limit).
 * `tick` — step the head of the ready queue: `tick i r begin|deliver`, `idle`
   (empty queue) or `stuck`.
 * `settle` — run the ready queue dry, then print the state.
@@ -81,6 +83,13 @@ def step (s : Sched) (line : String) : Sched × String :=
     match parseNat? i, parseNat? r with
     | some i, some r => applyAct s (.on i (.start r))
     | _, _ => (s, "bad-op")
+  | ["nstart", pi, pr, i, r] =>
+    match parseNat? pi, parseNat? pr, parseNat? i, parseNat? r with
+    | some pi, some pr, some i, some r =>
+      match s.nstart pi pr i r with
+      | some s' => (s', "ok")
+      | none => (s, "disabled")
+    | _, _, _, _ => (s, "bad-op")
   | ["begin", i, r] =>
     match parseNat? i, parseNat? r with
     | some i, some r => applyAct s (.on i (.begin r))
